@@ -738,6 +738,28 @@ func (s *sharedEntryAttributes) tryLoadingDefault(ctx context.Context, path []st
 	return result, nil
 }
 
+// tryLoadingImplicitContainer creates the entry of the child with the given name if the schema defines it as a
+// non-presence container that is not part of a choice. The defaults of its children are loaded with it.
+func (s *sharedEntryAttributes) tryLoadingImplicitContainer(ctx context.Context, name string) (Entry, error) {
+	if _, exists := s.childs.GetEntry(name); exists {
+		return nil, fmt.Errorf("child %s of %v exists already", name, s.Path())
+	}
+	for _, choice := range s.choicesResolvers {
+		if slices.Contains(choice.GetElementNames(), name) {
+			return nil, fmt.Errorf("child %s of %v belongs to a choice", name, s.Path())
+		}
+	}
+	rsp, err := s.treeContext.schemaClient.GetSchemaSlicePath(ctx, append(s.Path(), name))
+	if err != nil {
+		return nil, err
+	}
+	cont := rsp.GetSchema().GetContainer()
+	if cont == nil || cont.GetIsPresence() || len(cont.GetKeys()) > 0 {
+		return nil, fmt.Errorf("child %s of %v is not a non-presence container", name, s.Path())
+	}
+	return newEntry(ctx, s, name, s.treeContext)
+}
+
 // Navigate move through the tree, returns the Entry that is present under the given path
 func (s *sharedEntryAttributes) Navigate(ctx context.Context, path []string, isRootPath bool) (Entry, error) {
 	if len(path) == 0 {
@@ -763,12 +785,26 @@ func (s *sharedEntryAttributes) Navigate(ctx context.Context, path []string, isR
 		}
 		if !exists {
 			s.treeContext.onDemandMutex.Lock()
-			e, err = s.tryLoadingDefault(ctx, append(s.Path(), path...))
-			s.treeContext.onDemandMutex.Unlock()
-			if err != nil {
-				return nil, fmt.Errorf("navigating tree, reached %v but child %v does not exist, trying to load defaults yielded %v", s.Path(), path, err)
+			// another goroutine might have loaded the child in the meantime
+			e, exists = s.filterActiveChoiceCaseChilds()[path[0]]
+			if !exists {
+				e, err = s.tryLoadingDefault(ctx, append(s.Path(), path...))
+				if err != nil && len(path) == 1 {
+					// when the tree is navigated element by element (xpath, leafref) the element can be a non-presence
+					// container that nobody configured. It exists implicitly, the defaults of its children are in use.
+					var cerr error
+					e, cerr = s.tryLoadingImplicitContainer(ctx, path[0])
+					if cerr == nil {
+						err = nil
+					}
+				}
+				s.treeContext.onDemandMutex.Unlock()
+				if err != nil {
+					return nil, fmt.Errorf("navigating tree, reached %v but child %v does not exist, trying to load defaults yielded %v", s.Path(), path, err)
+				}
+				return e, nil
 			}
-			return e, nil
+			s.treeContext.onDemandMutex.Unlock()
 		}
 		return e.Navigate(ctx, path[1:], false)
 	}
